@@ -458,16 +458,10 @@ def c13_terms(chunk):
                         if type(ex).__name__ not in ("OverflowError", "RecursionError"):
                             st.violation({"term": M.to_json(t), "why": f"printed form of {label} does not evaluate: {type(ex).__name__}"})
                             break
-            st.sample_repr = None
-            st.reprs = getattr(st, "reprs", {})
-            st.reprs.setdefault(r, set()).add(M.key(t))
+            st.sets.setdefault("reprs", {}).setdefault(r, set()).add(M.key(t))
             if M.size(t) >= 2:
                 st.inc("nontrivial")
-    # injectivity inside the chunk is merged by the parent through outcomes
-    out = Stats()
-    out.merge(st)
-    out.reprs = getattr(st, "reprs", {})
-    return out
+    return st
 
 
 def run_c13(tier, seed):
@@ -487,18 +481,8 @@ def run_c13(tier, seed):
             terms.append(t)
     terms = seeded_order(terms, seed)
     # expressions (parallel), collecting repr -> model keys for injectivity
-    import multiprocessing as mproc
-    from .core import WORKERS
-    chunks = [terms[i:i + 2000] for i in range(0, len(terms), 2000)]
-    reprs = {}
-    st = Stats()
-    ctx = mproc.get_context("fork")
-    with ctx.Pool(WORKERS) as pool:
-        for part in pool.imap(_c13_chunk, chunks):
-            pst, preprs = part
-            st.merge(pst)
-            for r, keys in preprs.items():
-                reprs.setdefault(r, set()).update(keys)
+    st = pmap_stats(c13_terms, terms, chunk=2000, name="c13")
+    reprs = st.sets.get("reprs", {})
     for r, keys in reprs.items():
         if len(keys) > 1:
             st.violation({"why": f"{len(keys)} unequal expressions print identically as {r}"})
@@ -570,12 +554,6 @@ def run_c13(tier, seed):
         "distinct_printed_forms": c.get("distinct_printed_forms", 0), "exhaustive": True,
     }
     return run.finish(cov, ["finite numeric content; coordinate names that are Python identifiers"])
-
-
-def _c13_chunk(chunk):
-    st = c13_terms(chunk)
-    reprs = getattr(st, "reprs", {})
-    return st, reprs
 
 
 def replay_case(pid, c):
